@@ -383,6 +383,7 @@ Definition step1 (t : tok) (l : locals) : sres :=
 
   | S_comment_end =>
       if c =? 47 then Consumed (append (set_state t S_eatws) [c]) l
+      else if c =? 42 then Consumed (append t [c]) l           (* a further '*': still before a possible '/' *)
       else Consumed (append (set_state t S_comment) [c]) l
 
   | S_string =>
